@@ -48,7 +48,7 @@ struct c16_o32 {
 };
 
 struct c16_osmall {
-    uint16_t mm[MS_N]; /* operands are the low 8 / 16 bits of a and b */
+    uint16_t mm[MS_N]; /* 16-bit operands: bits 0..15 of a and b; 8-bit operands: bits 16..23 */
     float fmin, fmax;  /* operands: the float bit patterns fa, fb */
     double dmin, dmax;
 };
@@ -252,10 +252,11 @@ static void blksmall(const uint64_t *a, const uint64_t *b, const float *fa, cons
                      const double *db, size_t n, struct c16_osmall *o) {
     for (size_t i = 0; i < n; ++i) {
         uint64_t x = a[i], y = b[i];
-        o[i].mm[MS_MIN_U8] = aws_min_u8((uint8_t)x, (uint8_t)y);
-        o[i].mm[MS_MAX_U8] = aws_max_u8((uint8_t)x, (uint8_t)y);
-        o[i].mm[MS_MIN_I8] = (uint16_t)(int16_t)aws_min_i8((int8_t)(uint8_t)x, (int8_t)(uint8_t)y);
-        o[i].mm[MS_MAX_I8] = (uint16_t)(int16_t)aws_max_i8((int8_t)(uint8_t)x, (int8_t)(uint8_t)y);
+        uint8_t x8 = (uint8_t)(x >> 16), y8 = (uint8_t)(y >> 16);
+        o[i].mm[MS_MIN_U8] = aws_min_u8(x8, y8);
+        o[i].mm[MS_MAX_U8] = aws_max_u8(x8, y8);
+        o[i].mm[MS_MIN_I8] = (uint16_t)(int16_t)aws_min_i8((int8_t)x8, (int8_t)y8);
+        o[i].mm[MS_MAX_I8] = (uint16_t)(int16_t)aws_max_i8((int8_t)x8, (int8_t)y8);
         o[i].mm[MS_MIN_U16] = aws_min_u16((uint16_t)x, (uint16_t)y);
         o[i].mm[MS_MAX_U16] = aws_max_u16((uint16_t)x, (uint16_t)y);
         o[i].mm[MS_MIN_I16] = (uint16_t)aws_min_i16((int16_t)(uint16_t)x, (int16_t)(uint16_t)y);
